@@ -163,6 +163,9 @@ pub struct RecCollect {
     /// reentrancy: when the collector itself is dropped (its last `Dispatch` went away) it emits one farewell event
     /// at this pool site, carrying `7_000_000 + k` (-1: it does not)
     pub emit_on_drop: i64,
+    /// reentrancy: inside its `event` callback the collector itself emits this many events (values
+    /// 9_000_000 + k*100 + i, at pool site 8) - a collector that logs through tracing
+    pub nested: u8,
 }
 
 impl Drop for RecCollect {
@@ -177,6 +180,9 @@ impl Drop for RecCollect {
 thread_local! {
     /// fault injection: the next `event`/`new_span` callback on this thread panics (after it has been logged)
     pub static PANIC_NEXT_CALLBACK: std::cell::Cell<bool> = std::cell::Cell::new(false);
+    static IN_CALLBACK: std::cell::Cell<bool> = std::cell::Cell::new(false);
+    /// fault injection: the next `exit` on this thread panics (after it has been logged)
+    pub static PANIC_NEXT_EXIT: std::cell::Cell<bool> = std::cell::Cell::new(false);
     /// fault injection: the next `register_callsite` on this thread panics (after it has been logged)
     pub static PANIC_NEXT_REGISTER: std::cell::Cell<bool> = std::cell::Cell::new(false);
     static STACKS: RefCell<HashMap<usize, Vec<(u64, &'static Metadata<'static>)>>> = RefCell::new(HashMap::new());
@@ -218,13 +224,17 @@ impl tracing_core::field::Visit for ValVisitor {
 
 impl RecCollect {
     pub fn new(k: usize, filter: FilterSpec) -> Self {
-        RecCollect { k, filter, flipped: AtomicBool::new(false), next_id: AtomicU64::new(1 + k as u64 * 1_000_000), self_check: true, metas: Mutex::new(HashMap::new()), handle_ids: false, aliases: Mutex::new(HashMap::new()), late_init: false, inited: AtomicBool::new(false), emit_on_drop: -1 }
+        RecCollect { k, filter, flipped: AtomicBool::new(false), next_id: AtomicU64::new(1 + k as u64 * 1_000_000), self_check: true, metas: Mutex::new(HashMap::new()), handle_ids: false, aliases: Mutex::new(HashMap::new()), late_init: false, inited: AtomicBool::new(false), emit_on_drop: -1, nested: 0 }
     }
     fn log(&self, kind: &'static str, meta: Option<&Metadata<'_>>, id: u64, id2: u64, val: u64, flag: bool) {
         let (site, skind, name) = meta.map(site_of).unwrap_or((-1, 9, ""));
         let r = Rec { stamp: detsim::stamp(), thread: detsim::current(), k: self.k, kind, site, skind, name, id, id2, val, flag };
         ev(format!("c{} t{} {} s{} k{} id{} {} v{} {}", r.k, r.thread, kind, site, skind, id, id2, val, flag));
         LOG.lock().unwrap().push(r);
+    }
+    pub fn with_nested(mut self, n: u8) -> Self {
+        self.nested = n;
+        self
     }
     pub fn with_emit_on_drop(mut self, site: usize) -> Self {
         self.emit_on_drop = site as i64;
@@ -330,6 +340,13 @@ impl Collect for RecCollect {
             event.parent().map(|p| p.into_u64()).unwrap_or(0)
         };
         self.log("event", Some(event.metadata()), 0, parent, v.val, self.accepts_meta(event.metadata()));
+        if self.nested > 0 && IN_CALLBACK.with(|c| c.replace(true)) == false {
+            crate::fw::fault("collector_emits_inside_its_callback");
+            for i in 0..self.nested {
+                sites::emit_event(8, 9_000_000 + self.k as u64 * 100 + i as u64);
+            }
+            IN_CALLBACK.with(|c| c.set(false));
+        }
         if PANIC_NEXT_CALLBACK.with(|c| c.replace(false)) {
             crate::fw::fault("panic_in_collector_callback");
             panic!("injected panic inside Collect::event");
@@ -350,6 +367,10 @@ impl Collect for RecCollect {
             }
         });
         self.log("exit", None, span.into_u64(), 0, 0, true);
+        if PANIC_NEXT_EXIT.with(|c| c.replace(false)) {
+            crate::fw::fault("panic_in_collector_exit");
+            panic!("injected panic inside Collect::exit");
+        }
     }
     fn clone_span(&self, id: &Id) -> Id {
         if self.handle_ids {
